@@ -326,7 +326,12 @@ func (w *World) Step(a *app.ShutterApp, op Op, nonce uint64) (res Result) {
 	tx := w.Tx(a, op, nonce)
 	r := a.DeliverTx(abcitypes.RequestDeliverTx{Tx: tx})
 	res.Deliver = &r
-	b, _ := r.Marshal()
+	// Log and Info are declared non-deterministic by the ABCI specification (they
+	// are not part of the results hash); here they embed Go stack traces
+	// (pkg/errors %+v), so they are left out of the compared bytes.
+	cmp := r
+	cmp.Log, cmp.Info = "", ""
+	b, _ := cmp.Marshal()
 	res.Bytes = b
 	return res
 }
